@@ -790,6 +790,19 @@ C18_Monotone(S, now, la, retract) ==
 \* placement was deferred (WORKER_NOT_READY / TASK_NOT_READY) and is overdue, and then offers its children early
 OverduePlacementInGraph(S, g, now) ==
     \E i \in 1..Len(GTasks(S, g)) : LET a == GTasks(S, g)[i] IN S.ts[a].st = SCHEDULED /\ S.ts[a].plan.tm < now
+\* known deviation (trace-replay graphs only): a source task of a later timestamp that is still VIRTUAL (its own release
+\* time has not arrived) has no completion estimate, and the frontier then judges its children by their other parents alone
+UnreleasedSourceParent(S, t) ==
+    \E i \in 1..Len(Parents(S, t)) : LET p == Parents(S, t)[i] IN S.ts[p].st = VIRTUAL /\ S.tk[p].src /\ S.ts[p].rel >= 0
+\* known deviation (branch prediction policies other than ALL): the estimate of an undecided conditional is propagated to
+\* the predicted branch only, so a task of the other branch has no estimate and a task that also hangs on a predecessor
+\* outside the conditional (a skip edge into the branch) is judged by that predecessor alone
+RECURSIVE UnderUndecidedCond(_, _)
+UnderUndecidedCond(S, p) ==
+    \E i \in 1..Len(Parents(S, p)) : LET q == Parents(S, p)[i] IN
+        (S.tk[q].cond /\ ~IsDone(S, q) /\ S.ts[q].st # CANCELLED) \/ (S.ts[q].st = VIRTUAL /\ UnderUndecidedCond(S, q))
+ParentOnUnpredictedBranch(S, t) ==
+    \E i \in 1..Len(Parents(S, t)) : LET p == Parents(S, t)[i] IN S.ts[p].st = VIRTUAL /\ UnderUndecidedCond(S, p)
 C18_ParentsDoneOffenders(S, res, la, rtg) ==
     IF la = 0 /\ ~rtg THEN {res[i] : i \in {i \in 1..Len(res) : S.ts[res[i]].st \in {VIRTUAL, RELEASED} /\ ~ParentsOK(S, res[i])}}
     ELSE {}
